@@ -246,6 +246,7 @@ func (fr *Frame) exec(in ssa.Instruction, st *State, g string) {
 		fr.panicInstr(x, st, g)
 	case *ssa.Range:
 		fr.vals[x] = SV{t: fr.val(x.X).t, typ: x.X.Type()}
+		fr.extRangeInit(x, st) // ext_mapiter.go: visited set of a map range
 	case *ssa.Return:
 		fr.ret(x, st, g)
 	case *ssa.RunDefers:
@@ -644,6 +645,7 @@ func (fr *Frame) next(x *ssa.Next, st *State, g string) {
 	fc.assume(g, implies(ok, and(not(eq(rng.t, nilPtr)), has, tc.wf(k, mt.Key(), fc.watermark(st)), tc.wf(val, mt.Elem(), fc.watermark(st)))))
 	// an empty map yields no element
 	fc.assume(g, implies(eq(app("select", fc.comp(st, "ML", "(Array Ptr Int)"), rng.t), "0"), not(ok)))
+	fr.extMapNext(x, mt, rng.t, k, ok, st, g) // ext_mapiter.go: every entry of an unmodified map is produced exactly once
 	fr.vals[x] = SV{typ: x.Type(), tuple: []SV{{t: ok, typ: boolT}, {t: k, typ: mt.Key()}, {t: val, typ: mt.Elem()}}}
 }
 
@@ -1011,7 +1013,17 @@ func (fr *Frame) localsAt(h *ssa.BasicBlock, pidx int) (map[string]func(*State) 
 			if !ok {
 				break
 			}
-			if phi.Comment == "" || strings.HasPrefix(phi.Comment, "range") {
+			if phi.Comment == "" {
+				continue
+			}
+			if strings.HasPrefix(phi.Comment, "range") {
+				// the index phi of an EARLIER loop (already left at h): addressable as rangeindex_<loop ordinal> — the index of the
+				// last element processed when the loop was left (needed by `hint return` after a loop)
+				if li := fr.loops[b]; li != nil && !li.body[h] {
+					if sv, known := fr.vals[phi]; known {
+						out[fmt.Sprintf("%s_%d", strings.ReplaceAll(phi.Comment, ".", "_"), li.ordinal)] = func(*State) SV { return sv }
+					}
+				}
 				continue
 			}
 			if sv, known := fr.vals[phi]; known {
